@@ -37,7 +37,8 @@ type Config struct {
 	XOR2            bool    `json:"xor2,omitempty"`
 	HistST          bool    `json:"histst,omitempty"`
 	Sharding        bool    `json:"shard,omitempty"`
-	RichLabels      bool    `json:"rich,omitempty"` // C16 / C18: label sets with shared, absent and extra labels
+	LongLabels      bool    `json:"longlabels,omitempty"` // every third series carries a label set of more than 1 KiB
+	RichLabels      bool    `json:"rich,omitempty"`       // C16 / C18: label sets with shared, absent and extra labels
 	Exemplars       bool    `json:"ex,omitempty"`
 	V2              bool    `json:"v2,omitempty"`
 	ReplayConc      int     `json:"rc,omitempty"`
@@ -236,6 +237,7 @@ func GenConfig(prop, tier string, seed uint64) Config {
 		c.RichLabels = true
 		c.NSeries = r.Range(4, 12)
 		c.Sharding = true
+		c.LongLabels = r.Chance(0.3)
 	case "C24":
 		if r.Chance(0.15) {
 			// a block whose "id" label has one more value than a multiple of the postings offset table's sampling rate
@@ -492,6 +494,7 @@ func Shrink(p *Plan) []*Plan {
 	simpl(func(c *Config) bool { v := c.FastStart; c.FastStart = false; return v })
 	simpl(func(c *Config) bool { v := c.V2; c.V2 = false; return v })
 	simpl(func(c *Config) bool { v := c.Sharding; c.Sharding = false; return v })
+	simpl(func(c *Config) bool { v := c.LongLabels; c.LongLabels = false; return v })
 	simpl(func(c *Config) bool { v := c.HistST; c.HistST = false; return v })
 	simpl(func(c *Config) bool { v := c.ST; c.ST = false; return v })
 	simpl(func(c *Config) bool {
